@@ -643,7 +643,7 @@ func (c *Client) handleFetch(seqNum uint32) error {
 				return dec.Err()
 			}
 
-			bodyStruct, err := readBody(dec, &c.options)
+			bodyStruct, err := readBody(dec, &c.options, 0)
 			if err != nil {
 				return err
 			}
@@ -797,7 +797,14 @@ func parseMsgIDList(s string) ([]string, error) {
 	return h.MsgIDList("In-Reply-To")
 }
 
-func readBody(dec *imapwire.Decoder, options *Options) (imap.BodyStructure, error) {
+// maxBodyDepth limits the nesting of body structures (multipart and
+// message/rfc822 parts) to prevent stack overflow.
+const maxBodyDepth = 1000
+
+func readBody(dec *imapwire.Decoder, options *Options, depth int) (imap.BodyStructure, error) {
+	if depth >= maxBodyDepth {
+		return nil, fmt.Errorf("body structure is nested too deeply")
+	}
 	if !dec.ExpectSpecial('(') {
 		return nil, dec.Err()
 	}
@@ -810,10 +817,10 @@ func readBody(dec *imapwire.Decoder, options *Options) (imap.BodyStructure, erro
 	)
 	if dec.String(&mediaType) {
 		token = "body-type-1part"
-		bs, err = readBodyType1part(dec, mediaType, options)
+		bs, err = readBodyType1part(dec, mediaType, options, depth)
 	} else {
 		token = "body-type-mpart"
-		bs, err = readBodyTypeMpart(dec, options)
+		bs, err = readBodyTypeMpart(dec, options, depth)
 	}
 	if err != nil {
 		return nil, fmt.Errorf("in %v: %v", token, err)
@@ -832,7 +839,7 @@ func readBody(dec *imapwire.Decoder, options *Options) (imap.BodyStructure, erro
 	return bs, nil
 }
 
-func readBodyType1part(dec *imapwire.Decoder, typ string, options *Options) (*imap.BodyStructureSinglePart, error) {
+func readBodyType1part(dec *imapwire.Decoder, typ string, options *Options, depth int) (*imap.BodyStructureSinglePart, error) {
 	bs := imap.BodyStructureSinglePart{Type: typ}
 
 	if !dec.ExpectSP() || !dec.ExpectString(&bs.Subtype) || !dec.ExpectSP() {
@@ -877,7 +884,7 @@ func readBodyType1part(dec *imapwire.Decoder, typ string, options *Options) (*im
 			return nil, dec.Err()
 		}
 
-		msg.BodyStructure, err = readBody(dec, options)
+		msg.BodyStructure, err = readBody(dec, options, depth+1)
 		if err != nil {
 			return nil, err
 		}
@@ -950,11 +957,11 @@ func readBodyExt1part(dec *imapwire.Decoder, options *Options) (*imap.BodyStruct
 	return &ext, nil
 }
 
-func readBodyTypeMpart(dec *imapwire.Decoder, options *Options) (*imap.BodyStructureMultiPart, error) {
+func readBodyTypeMpart(dec *imapwire.Decoder, options *Options, depth int) (*imap.BodyStructureMultiPart, error) {
 	var bs imap.BodyStructureMultiPart
 
 	for {
-		child, err := readBody(dec, options)
+		child, err := readBody(dec, options, depth+1)
 		if err != nil {
 			return nil, err
 		}
